@@ -142,6 +142,86 @@ def run_model(spec, seed, segments, tie, offset=0, system=None):
     return digest(m, base), bus.dispatch_serial, m
 
 
+class Snapshot:
+    """Event action: deep-copies the whole model from inside the running simulation (a periodic checkpoint)."""
+
+    def __init__(self, model, take):
+        self.model, self.take = model, take
+        self.copy = None
+        self.state = None
+        self.__name__ = 'snapshot'
+
+    def __call__(self):
+        if not self.take or instrument.PROBING:
+            return
+        import copy
+        from simprocesd.model.factory_floor.asset import Asset
+        self.state = (random.getstate(), Asset._id_counter)
+        with instrument.probing():
+            self.copy = copy.deepcopy(self.model)
+
+    def __deepcopy__(self, memo):
+        return Snapshot(None, False)
+
+
+def run_model_with_snapshot(spec, seed, cut, total, take):
+    """One uninterrupted simulate(total) with a checkpoint event at `cut` (a no-op when take is False: the reference
+    run draws the same tie-break weights).  -> (digest original, digest of the copy continued afterwards or None)"""
+    from simprocesd.model.factory_floor.asset import Asset
+    instrument.install()
+    base = Asset._id_counter
+    bus = instrument.Bus(None)
+    random.seed(seed)
+    with instrument.use_bus(bus):
+        m = build_mod.build(dict(spec, tie='native', seed=seed), bus=None)
+        env = m.system.env
+        tick = Ticker(env, 1.25)
+        env.schedule_event(0.625, -2, TickerStart(tick), 4.5)
+        snap = Snapshot(m, take)
+        env.schedule_event(cut, -2, snap, 6.5)
+        m.system.simulate(total, print_summary=False)
+        d_orig = digest(m, base)
+        d_copy = None
+        if take and snap.copy is not None:
+            random.setstate(snap.state[0])
+            Asset._id_counter = snap.state[1]
+            with instrument.probing():
+                # the copy is in the middle of its run: its own end marker is among its events, stepping it to the
+                # end draws exactly the tie-break weights the original drew
+                cenv = snap.copy.system.env
+                while cenv._events and not cenv._terminated:
+                    cenv.step()
+                d_copy = digest(snap.copy, base)
+    return d_orig, d_copy
+
+
+def run_model_with_copy(spec, seed, cut, total):
+    """As run_model(spec, seed, [cut, total - cut], 'native'), but after the first run the whole model is deep-copied
+    and the COPY is continued first (through its Environment, with the instrumentation silent); the process-wide
+    random stream and id counter are then put back and the original is continued.  -> (digest original, digest copy)"""
+    import copy
+    from simprocesd.model.factory_floor.asset import Asset
+    instrument.install()
+    base = Asset._id_counter
+    bus = instrument.Bus(None)
+    random.seed(seed)
+    with instrument.use_bus(bus):
+        m = build_mod.build(dict(spec, tie='native', seed=seed), bus=None)
+        env = m.system.env
+        tick = Ticker(env, 1.25)
+        env.schedule_event(0.625, -2, TickerStart(tick), 4.5)
+        m.system.simulate(cut, print_summary=False)
+        st, idc = random.getstate(), Asset._id_counter
+        with instrument.probing():
+            mc = copy.deepcopy(m)
+            mc.system.env.run(total - cut)
+            d_copy = digest(mc, base)
+        random.setstate(st)
+        Asset._id_counter = idc
+        m.system.simulate(total - cut, print_summary=False)
+    return digest(m, base), d_copy
+
+
 def first_diff(a, b):
     if a == b:
         return None
@@ -392,6 +472,58 @@ def run(sh):
             import traceback
             sh.count('crashed_cases')
             sh.notes.append(f'C14 case crashed: {type(e).__name__}: {e} {traceback.format_exc()[-600:]}')
+    # (d) the whole model deep-copied in the middle of the simulation: the copy, continued on its own, and the
+    # original, continued afterwards, both end like the run that was never copied
+    for i in sh.share(48 if sh.tier == 'quick' else 6000):
+        seed = core.stable_int(sh.seed, 'C14copy', i) % (1 << 30)
+        rng = random.Random(seed)
+        spec = modelgen.generate(seed, ['general', 'routing', 'resources', 'faults', 'batching'][i % 5])
+        total = sum(spec['horizon'])
+        spec['horizon'] = [total]
+        spec.pop('between', None)
+        cut = rng.randrange(1, int(total * 8)) / 8.0
+        fails = [o['t'] for o in spec.get('script', []) if o['op'] == 'fail' and o['t'] is not None and o['t'] + 0.125 < total]
+        if fails and rng.random() < 0.6:
+            cut = rng.choice(fails) + 0.125      # right after a failure (possibly of a machine that is down: its paused
+            #                                        events have just been cancelled)
+        case = {'engine': 'copy', 'spec': spec, 'seed': seed, 'cut': cut}
+        try:
+            ref, _, _ = run_model(spec, seed, [cut, total - cut], 'native')
+            d_orig, d_copy = run_model_with_copy(spec, seed, cut, total)
+        except Exception as e:
+            import traceback
+            sh.violation('copy_crash', f'{type(e).__name__}: {e} {traceback.format_exc()[-900:]}', case, engine='copy')
+            continue
+        if d_copy != ref:
+            sh.violation('saved_copy_differs', f'model deep-copied at {cut}: the copy, continued on its own, differs from '
+                         f'the run that was never copied: {first_diff(ref, d_copy)}', case, engine='copy')
+        elif d_orig != ref:
+            sh.violation('saved_copy_differs', f'model deep-copied at {cut}: the original, continued after its copy had '
+                         f'been run, differs from the run that was never copied: {first_diff(ref, d_orig)}', case,
+                         engine='copy')
+        else:
+            sh.count('models_copied_half_way_and_both_continued')
+        # ... and a checkpoint taken from inside an event of the running simulation
+        try:
+            ref2, _ = run_model_with_snapshot(spec, seed, cut, total, False)
+            o2, c2 = run_model_with_snapshot(spec, seed, cut, total, True)
+        except Exception as e:
+            import traceback
+            sh.violation('copy_crash', f'{type(e).__name__}: {e} {traceback.format_exc()[-900:]}', dict(case, inside=True),
+                         engine='copy')
+            continue
+        if o2 != ref2:
+            sh.violation('saved_copy_differs', f'model deep-copied from inside an event at {cut}: the original run differs '
+                         f'from the same run without the checkpoint: {first_diff(ref2, o2)}', dict(case, inside=True),
+                         engine='copy')
+        elif c2 is not None and c2 != ref2:
+            sh.violation('saved_copy_differs', f'model deep-copied from inside an event at {cut}: the copy, continued '
+                         f'afterwards, differs from the original: {first_diff(ref2, c2)}', dict(case, inside=True),
+                         engine='copy')
+        else:
+            sh.count('checkpoints_taken_inside_an_event')
+        sh.case_done({'spec_hash': core.case_hash(spec), 'seed': seed, 'copy': cut}, True,
+                     sample={'copied_at': cut, 'devices': len(spec['items'])})
     # (c)
     for i in sh.share(npar):
         seed = core.stable_int(sh.seed, 'C14par', i) % (1 << 30)
@@ -509,6 +641,12 @@ def replay(sh, v):
     spec = case['spec']
     seed = case['seed']
     total = sum(spec['horizon'])
+    if case.get('engine') == 'copy':
+        ref, _, _ = run_model(spec, seed, [case['cut'], total - case['cut']], 'native')
+        d_orig, d_copy = run_model_with_copy(spec, seed, case['cut'], total)
+        if d_copy != ref or d_orig != ref:
+            sh.violation('saved_copy_differs', first_diff(ref, d_copy if d_copy != ref else d_orig), case, engine='copy')
+        return
     if case.get('engine') == 'repro':
         d1, _, _ = run_model(spec, seed, [total], 'native', 0)
         d2, _, _ = run_model(spec, seed, [total], 'native', 5)
